@@ -129,6 +129,7 @@ class SymExec:
         self.binders = 0
         self.notes: list[str] = []
         self._uid = 0
+        self.term_cls: dict[Term, set[str]] = {}  # object term -> repo classes it may be an instance of (from the type resolver)
 
     # ------------------------------------------------------------------ entry
     def run(self, fi: FuncInfo, self_term: Term = SELF, args: dict | None = None) -> Run:
@@ -474,12 +475,11 @@ class SymExec:
             return NONE_T
         if isinstance(e, ast.Constant):
             return const(e.value)
-        if isinstance(e, ast.Name):
-            return self.ev_name(e, st, fr)
-        if isinstance(e, ast.Attribute):
-            return self.ev_attr(e, st, fr)
-        if isinstance(e, ast.Call):
-            return self.ev_call(e, st, fr)
+        if isinstance(e, (ast.Name, ast.Attribute, ast.Call)):
+            t = self.ev_name(e, st, fr) if isinstance(e, ast.Name) else self.ev_attr(e, st, fr) if isinstance(e, ast.Attribute) else self.ev_call(e, st, fr)
+            if t[0] in ("attr", "param", "mcall", "call", "phi", "index"):
+                self.classes_of(t, fr, e)
+            return t
         if isinstance(e, ast.List):
             return ("list", tuple(self.ev(x, st, fr) for x in e.elts))
         if isinstance(e, ast.Tuple):
@@ -572,8 +572,22 @@ class SymExec:
         except Exception:  # noqa: BLE001
             return ("unknown",)
 
+    def classes_of(self, obj: Term, fr: Frame | None = None, node: ast.expr | None = None) -> list[str]:
+        if obj[0] in ("obj", "new"):
+            return [obj[1]]
+        out = set(self.term_cls.get(obj, ()))
+        if fr is not None and node is not None:
+            out |= {m[1] for m in members(self._static_type(fr, node)) if m[0] == "cls"}
+            if out:
+                self.term_cls.setdefault(obj, set()).update(out)
+        return sorted(out)
+
     def ev_attr(self, e: ast.Attribute, st: State, fr: Frame) -> Term:
         obj = self.ev(e.value, st, fr)
+        return self.load_attr(obj, e.attr, st, fr, e.value)
+
+    def load_attr(self, obj: Term, attr: str, st: State, fr: Frame, node: ast.expr | None) -> Term:
+        e = type("A", (), {"attr": attr, "value": node})
         if (obj, e.attr) in st.heap:
             return st.heap[(obj, e.attr)]
         if obj[0] == "classref":
@@ -587,7 +601,7 @@ class SymExec:
                         return const(c.class_attrs[e.attr].value)
             return ("attr", obj, e.attr)
         # property of a repo class with exactly one implementation -> interpret the getter
-        cls_fqs = [obj[1]] if obj[0] in ("obj", "new") else [m[1] for m in members(self._static_type(fr, e.value)) if m[0] == "cls"]
+        cls_fqs = self.classes_of(obj, fr, node)
         impls: list[FuncInfo] = []
         for fq in cls_fqs:
             ci = self.repo.classes.get(fq)
@@ -643,6 +657,7 @@ class SymExec:
         target: FuncInfo | None = None
         via_class = False
         fterm = None
+        repo_targets: list[FuncInfo] = []
         if isinstance(f, ast.Attribute):
             recv = self.ev(f.value, st, fr)
             if (recv, f.attr) in st.heap:
@@ -682,6 +697,7 @@ class SymExec:
                 if ci is not None:
                     return self.construct(ci.fq, args, kws, starred, call, st, fr)
             concrete = [c for c in cs if not c.is_abstract]
+            repo_targets = concrete
             if how == "repo" and len(concrete) == 1 and len(cs) == len(concrete) + sum(1 for c in cs if c.is_abstract):
                 target = concrete[0]
                 if isinstance(f, ast.Attribute):
@@ -694,7 +710,10 @@ class SymExec:
             except _Opaque:
                 pass
         # un-interpreted call
-        if isinstance(f, ast.Attribute):
+        if target is not None or repo_targets:
+            # code of the repository that was not followed (several implementations, *args, recursion, depth)
+            self.emit("opaque", st, call, fr, targets=tuple(t.fq for t in ([target] if target is not None else repo_targets)))
+        if isinstance(f, ast.Attribute) and fterm is None:
             a = tuple(args) + tuple(("kw", k, v) for k, v in kws.items())
             self._container_effects(recv, f.attr, args, kws, st, fr, call)
             if f.attr not in PURE_METHODS:
@@ -740,7 +759,7 @@ class SymExec:
             alts = _const_alternatives(args[1])
             if alts is not None:
                 def read(n: str) -> Term:
-                    return st.heap.get((args[0], n), ("attr", args[0], n))
+                    return self.load_attr(args[0], n, st, fr, None)
                 return _phi_of(alts, read)
         if name == "setattr" and len(args) == 3 and not kws:
             alts = _const_alternatives(args[1])
